@@ -261,9 +261,9 @@ def main(tier):
     for rep in range(2 if quick else 12):
         for i, sh in enumerate(shards):
             jobs.append((built, ck.seed, rep * 100 + i, "corpusmut", sh, calib))
-    for i in range(30 if quick else 2500):
+    for i in range(150 if quick else 4000):
         jobs.append((built, ck.seed, i, "genmut", None, calib))
-    for i in range(30 if quick else 2500):
+    for i in range(150 if quick else 4000):
         jobs.append((built, ck.seed, i, "random", None, calib))
     jobs.append((built, ck.seed, 0, "huge", 4500000, calib))
     rnd.shuffle(jobs)
